@@ -287,7 +287,9 @@ func processSegments(in io.Reader, out *io.PipeWriter, processFn processSegmentF
 
 		// Ignore EOF errors, which mean that the input stream is done
 		// We will still need to continue processing whatever data we have
-		if err != nil && !errors.Is(err, io.EOF) {
+		// The end of a stream is io.EOF itself: an error that merely wraps it ("connection lost: EOF") is a failure
+		//nolint:errorlint
+		if err != nil && err != io.EOF {
 			// In case of any other error, close the out stream with the error
 			_ = out.CloseWithError(err)
 			return
@@ -401,7 +403,8 @@ func readHeader(in *io.Reader) (manifest []byte, mac []byte, err error) {
 
 	// If the read that completed the header also returned an error (other than the stream having ended), do not lose it:
 	// the stream is not required to report it again on the next read
-	if newlines == 3 && err != nil && !errors.Is(err, io.EOF) {
+	//nolint:errorlint
+	if newlines == 3 && err != nil && err != io.EOF {
 		return nil, nil, err
 	}
 
